@@ -284,6 +284,7 @@ class Sim:
         inner, self.inner = self.inner, True
         try:
             self.op_publish(x, p, s, a, probe=self.quiescent())
+            self.flush()
             self.flush_waits()
             self.drain()
         finally:
@@ -424,6 +425,8 @@ class Sim:
         n = 0
         while n < limit:
             n += 1
+            if not self.stack:
+                self.flush()
             ks = [k for k, v in self.chan.items() if v and k[0] in self.ctx[k[1]].peers]
             if ks:
                 k = rng.choice(ks) if rng else ks[0]
